@@ -24,7 +24,7 @@ ASSUMPTIONS = ['only index and value forms used by upstream tests/docstrings are
                'reads that leave every selected row non-empty',
                'row reads are views by design, so write-through is exercised on a row fetched after the last structural change',
                'values keep the dtype of the array (no float written into an integer array)']
-REACH_EXPECTED = ['rows_traded_lengths', 'op_stale_mask', 'mask_of_another_layout', 'append_wider_dtype', 'op_iterate_mutating', 'op_rejected_write', 'op_compare_lt', 'op_compare_ne', 'op_truediv', 'op_floordiv', 'op_mod', 'op_pow', 'op_mod_reflected', 'op_bitwise', 'op_reads2d', 'op_writes2d', 'op_helpers', 'construct_from_2d_block', 'row_assign_wider_dtype', 'introw_general_slice', 'op_rowslice_col', 'out_of_row_write_rejected', 'op_elem', 'op_row_same', 'op_row_newlen', 'op_introw_slice', 'op_slice2d', 'op_fancy', 'op_fancy_int', 'op_mask',
+REACH_EXPECTED = ['op_copied_object', 'rows_traded_lengths', 'op_stale_mask', 'mask_of_another_layout', 'append_wider_dtype', 'op_iterate_mutating', 'op_rejected_write', 'op_compare_lt', 'op_compare_ne', 'op_truediv', 'op_floordiv', 'op_mod', 'op_pow', 'op_mod_reflected', 'op_bitwise', 'op_reads2d', 'op_writes2d', 'op_helpers', 'construct_from_2d_block', 'row_assign_wider_dtype', 'introw_general_slice', 'op_rowslice_col', 'out_of_row_write_rejected', 'op_elem', 'op_row_same', 'op_row_newlen', 'op_introw_slice', 'op_slice2d', 'op_fancy', 'op_fancy_int', 'op_mask',
                   'op_mask_empty', 'op_rowblock', 'op_append_rows', 'op_append_ra', 'op_aug_scalar', 'op_aug_ragged', 'op_binary',
                   'env_source_mutated', 'env_lengths_mutated', 'env_result_mutated', 'env_write_through', 'env_selection_mutated', 'rect_to_ragged', 'ragged_to_rect', 'multidim_elements',
                   'out_of_row_rejected']
@@ -225,8 +225,8 @@ class Machine:
         lens = [len(r) for r in rows]
         was_rect = len(set(lens)) == 1
         ops1d = ('elem', 'row_same', 'row_newlen', 'introw_slice', 'slice2d', 'rowslice_col', 'fancy', 'fancy_int', 'mask', 'rowblock', 'append',
-                 'aug', 'binary', 'write_through', 'elem', 'row_same', 'child_write', 'compare', 'divlike', 'bitwise', 'reads2d', 'writes2d', 'helpers', 'iterate_mutating', 'rejected_write', 'stale_mask')
-        opsnd = ('row_same', 'row_newlen', 'append', 'aug', 'binary', 'rowblock', 'iterate_mutating')
+                 'aug', 'binary', 'write_through', 'elem', 'row_same', 'child_write', 'compare', 'divlike', 'bitwise', 'reads2d', 'writes2d', 'helpers', 'iterate_mutating', 'rejected_write', 'stale_mask', 'copied_object')
+        opsnd = ('row_same', 'row_newlen', 'append', 'aug', 'binary', 'rowblock', 'iterate_mutating', 'copied_object')
         op = t.choice(ops1d if self.edim is None else opsnd)
         a = self.a
         V = self.vals
@@ -691,6 +691,26 @@ class Machine:
                         for r_, c_ in cells:
                             rows[r_][c_] = v
             self.ctx.hit('op_stale_mask')
+        elif op == 'copied_object':
+            # the array travels: through pickle (to another process and back), deepcopy or copy.copy.  What arrives is a ragged
+            # array like any other - the history goes on with the copy, and the original no longer sees it
+            import copy
+            import pickle
+            how = t.choice(('pickle', 'deepcopy', 'copy'))
+            self.hist.append(('copied_object', how))
+            try:
+                b = {'pickle': lambda o: pickle.loads(pickle.dumps(o)), 'deepcopy': copy.deepcopy, 'copy': copy.copy}[how](a)
+            except Exception:       # noqa: not being copyable is not what is checked
+                self.ctx.count('array_not_copyable')
+                return
+            if how != 'copy':
+                old_first = np.array(a[0])
+                b[0][0] = V.take(()) if self.edim is None else V.take((self.edim,))
+                if not eqv(a[0], old_first):
+                    self.bad('copy_aliases_original', 'a write into a %s of the array changed the array itself' % how)
+                b[0][0] = rows[0][0]
+                self.a = b
+            self.ctx.hit('op_copied_object')
         elif op == 'rejected_write':
             # a row assignment the array cannot take (a bare number where a row is expected): whatever is raised, nothing changes
             i = t.draw(n)
@@ -746,7 +766,7 @@ class Machine:
         if op not in ('binary', 'compare', 'divlike', 'bitwise', 'reads2d', 'helpers'):
             self.mutations += 1
         if op not in ('append', 'aug', 'binary', 'write_through', 'child_write', 'compare', 'divlike', 'bitwise', 'reads2d', 'writes2d', 'helpers',
-                      'iterate_mutating', 'rejected_write', 'stale_mask'):
+                      'iterate_mutating', 'rejected_write', 'stale_mask', 'copied_object'):
             self.ctx.hit('op_' + op)
         nl = [len(r) for r in self.rows]
         now_rect = len(set(nl)) == 1
